@@ -105,12 +105,14 @@ class Work:
                 if "WARNING" in line or p.returncode != 0:
                     log("  " + line)
 
-    def build_test(self, pkg, race=False, goarch=None):
-        key = (pkg, race, goarch)
+    def build_test(self, pkg, race=False, goarch=None, tags=None):
+        key = (pkg, race, goarch, tags)
         if key in self.bins:
             return self.bins[key]
-        out = os.path.join(self.dir, "bin-%s%s%s.test" % (pkg.replace("/", "_"), "-race" if race else "", "-" + goarch if goarch else ""))
+        out = os.path.join(self.dir, "bin-%s%s%s%s.test" % (pkg.replace("/", "_"), "-race" if race else "", "-" + goarch if goarch else "", "-" + tags if tags else ""))
         cmd = ["go", "test", "-trimpath", "-c", "-o", out]
+        if tags:
+            cmd += ["-tags", tags]
         if race:
             cmd.append("-race")
         cmd.append("./" + pkg)
@@ -250,7 +252,7 @@ def run_leg(work, pid, leg, leg_index, tier, seed, replay=None, replay_dir=None)
     if leg.app:
         for a in leg.app:
             work.build_app(a)
-    binp = work.build_test(leg.pkg, race=leg.race, goarch=leg.goarch)
+    binp = work.build_test(leg.pkg, race=leg.race, goarch=leg.goarch, tags=leg.tags)
     wrap = []
     if leg.wrap:
         wrap = wrapper(leg.wrap)
@@ -545,7 +547,7 @@ def check_property(pid, tier, seed):
                 if leg.instrument:
                     # an instrumented build that does not compile is the rewriter's problem, not a verdict
                     try:
-                        w.build_test(leg.pkg, race=leg.race, goarch=leg.goarch)
+                        w.build_test(leg.pkg, race=leg.race, goarch=leg.goarch, tags=leg.tags)
                         for a in leg.app or []:
                             w.build_app(a)
                     except BuildError as be:
